@@ -197,7 +197,7 @@ func (harness) Run(cfg xplore.Config, ch vrt.Chooser, trace bool) (xplore.Outcom
 			usesTun[i] = strings.HasSuffix(a, "@")
 		}
 		d.addrs = clean
-		held := make(chan struct{})    // closed once requester 0 holds its connection and it has broken
+		held := make(chan struct{})     // closed once requester 0 holds its connection and it has broken
 		othersIn := make(chan struct{}) // closed once the other requesters have their answers
 		nOthers := 0
 		for i, addr := range d.addrs {
